@@ -51,6 +51,7 @@ type reply struct {
 	KernelOffFormula   int
 	MaskedChmodSetgid  int
 	MaskedRemoveAll    int
+	RemoveAllViaRemove int
 	Outcomes           map[string]int
 	Viols              []*violAgg
 	Samples            []*replay
@@ -485,10 +486,11 @@ type evalOut struct {
 	skipOth bool
 	skipArt bool
 
-	kernelOffFormula bool
-	maskedRemoveAll  bool
-	maskedChmod      bool
-	args             opArgs
+	kernelOffFormula   bool
+	maskedRemoveAll    bool
+	removeAllViaRemove bool
+	maskedChmod        bool
+	args               opArgs
 }
 
 func isPermKind(k string) bool {
@@ -504,6 +506,20 @@ func (w *worker) eval(b *block, nodes []node, c callT) (out evalOut, err error) 
 	out.args = a
 
 	out.rk = w.kernelRun(c, a, u)
+
+	// os.RemoveAll first tries a plain remove and, when that fails, opens the
+	// PARENT directory for reading to continue with unlinkat: "open <parent>:
+	// permission denied" is a refusal of Go's strategy, the kernel's own answer
+	// to the removal was swallowed. For a leaf that is a file, a link or an empty
+	// directory RemoveAll is Remove: the kernel is asked that instead.
+	// (an empty directory that cannot be read gives "openfdat <leaf>: permission denied" the same way)
+	if c.Op == "RemoveAll" && out.rk.Kind == "EACCES" && b.Fam.LeafKind != "N" &&
+		(strings.HasPrefix(out.rk.Msg, "open ") || strings.HasPrefix(out.rk.Msg, "openfdat ")) {
+		c2 := c
+		c2.Op = "Remove"
+		out.rk = w.kernelRun(c2, a, u)
+		out.removeAllViaRemove = true
+	}
 	if strings.HasPrefix(out.rk.Kind, "HARNESS") {
 		return out, fmt.Errorf("kernel side of %s: %s %s", w.callText(c, a), out.rk.Kind, out.rk.Msg)
 	}
@@ -561,7 +577,8 @@ func (w *worker) eval(b *block, nodes []node, c callT) (out evalOut, err error) 
 	// opens the PARENT directory for reading to work with unlinkat: a refusal
 	// whose only cause is missing read permission on the parent is an artefact
 	// of that strategy, not a DAC decision about removal.
-	if c.Op == "RemoveAll" && b.Fam.LeafKind == "N" && rk.Kind != "ok" && lacks(b.Fam, nodes, u, c) == "p:r" {
+	if c.Op == "RemoveAll" && b.Fam.LeafKind == "N" && rk.Kind != "ok" &&
+		(lacks(b.Fam, nodes, u, c) == "p:r" || rk.Kind == "EACCES" && strings.HasPrefix(rk.Msg, "open "+strings.Replace(path.Dir(a.A), w.R, "R", 1)+":")) {
 		out.skipped, out.skipArt = true, true
 
 		return out, nil
@@ -1245,6 +1262,10 @@ func (w *worker) runTask(blocks []*block, t task) (r reply) {
 
 			if o.maskedRemoveAll {
 				r.MaskedRemoveAll++
+			}
+
+			if o.removeAllViaRemove {
+				r.RemoveAllViaRemove++
 			}
 
 			r.Outcomes[c.Op+"|"+actorClass(b.Fam, nodes, users[b.Actor])+"|"+o.rk.Kind]++
